@@ -326,6 +326,10 @@ def gen_stream(ch):
                 # the first data message after the later definition uses the sequence that had to wait for it
                 used_outer.add(ready[0])
                 ids = [ready[0], ch.choice(known_e)]
+            elif k and ch.bool(1, 2) and [s_ for s_ in known_s if s_ in REPONLY_ALL and any(s_ == sq[0] for td in defs[:k] for sq in td.d)]:
+                # a replication-only sequence that an *earlier* definition message defined, used after a later one
+                s_ = ch.choice([s_ for s_ in known_s if s_ in REPONLY_ALL and any(s_ == sq[0] for td in defs[:k] for sq in td.d)])
+                ids = [s_, ch.choice(known_e)]
             elif k and redefined_in_seq and ch.bool(2, 3):
                 # a sequence defined earlier that contains an element re-defined since
                 cands = [sq[0] for td in defs[:k + 1] for sq in td.d if set(sq[2]) & redefined_in_seq and sq[0] in known_s
